@@ -285,6 +285,10 @@ func runC10(c *Ctx) {
 		}
 	}
 	c.Min("K7-merged-as-requested", 30)
+	// ... at the position the binary search over the descending list gives: a hit returns the probe, a
+	// miss the insertion point and 0 (C08-H1b) -- both merges read a non-zero second result as a hit
+	c.ruleBinarySearch("K12-merged-where-the-search-says")
+	c.Min("K12-merged-where-the-search-says", 3)
 	c.ruleListenerCannotFault("K8-listener-cannot-fault")
 	c.Min("K8-listener-cannot-fault", 1)
 }
